@@ -2,7 +2,7 @@ import PolyVerif.Model.Fasta
 /-
 Independent FASTA writer for C13: every way of laying out a list of records that the property says
 must not matter.  `layoutFasta rs ℓ` writes, for each record, optional blank / `;` comment lines, the
-header `>name`, optional blank / comment lines, and the sequence cut into lines of arbitrary lengths
+header `>name`, optional blank / whitespace-only / comment lines, and the sequence cut into lines of arbitrary lengths
 (a list of individual line lengths, then a uniform width), optionally with blank / comment lines after
 every sequence line; each record chooses `\n` or `\r\n` line ends; the newline after the very last
 line may be missing.  A record with an empty sequence has no sequence line at all.
@@ -17,11 +17,13 @@ open PolyVerif PolyVerif.Fasta
 inductive Junk where
   | blank
   | comment (t : Str)
+  | spaces (t : Str)      -- a line of blanks and tabs
   deriving Repr, DecidableEq
 
 def Junk.line : Junk → Str
   | .blank => []
   | .comment t => ';' :: t
+  | .spaces t => t
 
 structure RecLayout where
   before : List Junk := []     -- lines before the header
@@ -72,7 +74,9 @@ def layoutFasta (rs : List Rec) (ℓ : FastaLayout) : Str :=
 
 /-! ### the domain of the property -/
 
-def printable (c : Char) : Bool := 32 ≤ c.toNat && c.toNat ≤ 126
+/-- printable: ASCII 32..126, and every character from U+00A0 on (the theorems need only that it is neither
+LF nor CR; Go works on the UTF-8 bytes, none of which is LF, CR, `>` or `;` inside a multi-byte character) -/
+def printable (c : Char) : Bool := (32 ≤ c.toNat && c.toNat ≤ 126) || 160 ≤ c.toNat
 
 /-- sequences are letters -/
 def letter (c : Char) : Bool := c.isAlpha
@@ -87,8 +91,9 @@ instance (rs : List Rec) : Decidable (WFRecs rs) := by unfold WFRecs; infer_inst
 def Junk.ok : Junk → Bool
   | .blank => true
   | .comment t => t.all (fun c => printable c || c == '\t')
+  | .spaces t => t.all (fun c => c == ' ' || c == '\t')
 
-/-- comment lines consist of printable characters and tabs -/
+/-- comment lines consist of printable characters and tabs, whitespace lines of blanks and tabs -/
 def WFLayout (ℓ : FastaLayout) : Prop :=
   ∀ l ∈ ℓ.recs, ∀ j ∈ l.before ++ l.after ++ l.between, j.ok = true
 
